@@ -356,7 +356,7 @@ def run_all(corr, cases):
     """Run the implementation on every case; forked worker processes when there are many cases.
     (Each case is independent: run_impl builds its objects from the JSON-able case.)"""
     n = len(cases)
-    if n < 64 or os.environ.get("VERIF_PAR", "1") == "0" or getattr(corr, "sequential", False):
+    if n < getattr(corr, "parallel_min", 64) or os.environ.get("VERIF_PAR", "1") == "0" or getattr(corr, "sequential", False):
         return [safe_run(corr, k) for k in cases]
     import multiprocessing as mp
 
@@ -364,7 +364,7 @@ def run_all(corr, cases):
     try:
         if cases:
             safe_run(corr, cases[0])  # import everything once in the parent so that children inherit it
-        with mp.get_context("fork").Pool(min(JOBS, max(1, n // 16))) as pool:
+        with mp.get_context("fork").Pool(min(JOBS, max(1, n // max(1, getattr(corr, "parallel_min", 64) // 4)))) as pool:
             return pool.map(_par_worker, range(n), chunksize=max(1, n // (JOBS * 8)))
     finally:
         _PAR_STATE.clear()
@@ -593,6 +593,11 @@ def run_check(prop, tier, seed):
     os.makedirs(os.path.join(ROOT, "evidence"), exist_ok=True)
     with open(os.path.join(ROOT, "evidence", f"{pid}.json"), "w") as f:
         json.dump(ev, f, indent=1, default=str)
+    if hasattr(prop, "cleanup"):
+        try:
+            prop.cleanup()
+        except Exception:
+            pass
     for l in known_lines:
         print(l)
     for l in out_lines:
